@@ -52,7 +52,7 @@ def meta(tier):
                 'sub-block of it moved into inc2.asm; judged against the reference include semantics (fresh file scope, GLOBAL zone '
                 'inside, includer zone and local region resumed, mute state carried) and, for scope/zone-neutral blocks cut while '
                 'GLOBAL is selected, differentially against the real assembly of the unsplit program; plus a placement product '
-                '(unique / duplicated / missing file, same directory twice, file included twice, self-include, nested include '
+                '(unique / duplicated (as a copy and as a symbolic link) / missing file, same directory twice, file included twice, self-include, nested include '
                 'across directories); plus every include graph over three files (main includes one or two, the others nothing or one of the three; cycles, self-includes, diamonds) x each file with or without an #ifndef include guard, accepted iff no file is reached twice; plus every sequence of up to 3 live / dead (#ifdef, #if 0, #else) includes of two files and a missing one: a dead #include includes nothing, looks nothing up, counts for nothing; non-trivial = split whose moved block is non-empty and whose program mentions a label; '
                 'states = distinct (program, cut) reference states',
         'bounds': {'alphabet': [R.render(u).strip().replace('\n', ' / ') for u in sigma(0)], 'length': '4 (all units)' if q else '4 (all units), 5 (9 core units)',
@@ -195,6 +195,21 @@ def placements(acc, idx, n):
         acc.state(('p', dirs, where, twice, selfinc, nested))
         if ctr % 37 == 0:
             acc.sample({'include_dirs': dirs, 'files': {k: R.render(v) for k, v in files.items()}, 'reference': spec})
+        if len(where) == 2:
+            # the same two placements, the second one being a symbolic link to the first: still one name in two directories
+            texts = R.render_files(files)
+            first = (where[0] + '/' if where[0] else '') + 'inc.asm'
+            second = (where[1] + '/' if where[1] else '') + 'inc.asm'
+            texts[second] = '@symlink:' + ('../' if where[1] else '') + first
+            case_l = Case(ISA, texts, incdirs=dirs)
+            out_l = acc.run(case_l)
+            acc.transition()
+            spec_l = dict(spec, note='second placement is a symbolic link to the first')
+            msg = judge_expect(spec_l, [out_l])
+            if msg:
+                acc.violation([case_l], spec_l, f'dirs={dirs} file at {where[0] or "."} and a link to it at {where[1]}: {msg}', [out_l])
+            acc.judge(clause='placement-accepted' if ref.status == 'OK' else 'placement-rejected',
+                      nontrivial_key=('pl', dirs, where, twice, selfinc, nested))
 
 
 def include_graphs(acc, idx, n):
